@@ -295,7 +295,7 @@ func TestFirstUseChild(t *testing.T) {
 // ---- parent side -----------------------------------------------------------------------------------
 
 func runChild(planFile, mode string) (childResult, string, error) {
-	cmd := exec.Command(os.Args[0], "-test.run", "^TestFirstUseChild$", "-test.timeout", "120s")
+	cmd := exec.Command(os.Args[0], "-test.run", "^TestFirstUseChild$", "-test.timeout", "240s")
 	cmd.Env = append(os.Environ(), "VERIF_C19_PLAN="+planFile, "VERIF_C19_MODE="+mode, "VERIF_PEER_MODE=1", "VERIF_OUT=", "VERIF_REPLAY=")
 	var out bytes.Buffer
 	cmd.Stdout, cmd.Stderr = &out, &out
@@ -319,6 +319,16 @@ func runChild(planFile, mode string) (childResult, string, error) {
 		return childResult{}, s, fmt.Errorf("race detector report in the %s process:\n%s", mode, tail(s, 3000))
 	}
 	if werr != nil {
+		if strings.Contains(s, "panic: test timed out") {
+			// The child's own deadline fired. The goroutine dump decides: if every goroutine that was
+			// executing an operation is parked on a lock, semaphore or channel, nothing could make
+			// progress any more (deadlock: a violation). If any of them is running or runnable the
+			// machine was merely too slow for the budget, which is inconclusive.
+			if blocked, total := opGoroutines(s); total > 0 && blocked == total {
+				return childResult{}, s, fmt.Errorf("%s process deadlocked: all %d goroutines executing operations are parked on locks\n%s", mode, total, deadlockSummary(s))
+			}
+			return childResult{}, s, fmt.Errorf("harness: %s process hit its 240 s deadline while still making progress (overload)", mode)
+		}
 		return childResult{}, s, fmt.Errorf("%s process failed: %v\n%s", mode, werr, tail(s, 3000))
 	}
 	i := strings.Index(s, "C19RESULT ")
@@ -334,6 +344,49 @@ func runChild(planFile, mode string) (childResult, string, error) {
 		return r, s, fmt.Errorf("harness: bad child result: %v", err)
 	}
 	return r, s, nil
+}
+
+// opGoroutines counts, in a Go goroutine dump, the goroutines whose stack contains execOp (or the
+// sequential test body) and how many of them are parked in a blocking synchronisation state.
+func opGoroutines(dump string) (blocked, total int) {
+	for _, g := range strings.Split(dump, "\n\ngoroutine ")[1:] {
+		if !strings.Contains(g, "c19.execOp") {
+			continue
+		}
+		total++
+		hdr := g
+		if i := strings.IndexByte(g, '\n'); i >= 0 {
+			hdr = g[:i]
+		}
+		for _, st := range []string{"Mutex", "semacquire", "chan ", "select", "sync.Cond", "sync.WaitGroup"} {
+			if strings.Contains(hdr, st) {
+				blocked++
+				break
+			}
+		}
+	}
+	return
+}
+
+// deadlockSummary keeps, per parked goroutine, its header and the frames inside protobuf-go.
+func deadlockSummary(dump string) string {
+	var b strings.Builder
+	for _, g := range strings.Split(dump, "\n\ngoroutine ")[1:] {
+		if !strings.Contains(g, "c19.execOp") {
+			continue
+		}
+		lines := strings.Split(g, "\n")
+		fmt.Fprintf(&b, "goroutine %s\n", lines[0])
+		for _, l := range lines[1:] {
+			if strings.HasPrefix(l, "google.golang.org/protobuf/") && !strings.Contains(l, "zverif") {
+				fmt.Fprintf(&b, "  %s\n", l)
+			}
+		}
+		if b.Len() > 6000 {
+			break
+		}
+	}
+	return b.String()
 }
 
 func tail(s string, n int) string {
